@@ -2,6 +2,7 @@ import ScrapliModel.Lemmas.SshCfg
 import ScrapliModel.Generated.SshArgv
 import ScrapliModel.Generated.SshAuth
 import ScrapliModel.Generated.SshDial
+import ScrapliModel.Generated.ResolveFile
 /-!
 # C14 — SSH connections honour strict host-key checking and the configured identity
 
@@ -767,5 +768,21 @@ theorem knownhosts_lookup_uses_configured_host (a : Args) (s : SSHArgs) (khLoads
   have hc' := (standard_policy a' s' kl kl' c' h').2.2.2.1
   show c'.addr = c.addr
   rw [hc, hc', hh, hp]
+
+/-! ## which file a configured path names -/
+
+/-- obligation on the regenerated fact about `util.ResolveFilePath`: it stats exactly twice, first
+the path as given (before any rewriting of it), then the rewritten (home-relative) one -/
+theorem resolve_file_path_source_order :
+    Gen.ResolveFile.found = true ∧ Gen.ResolveFile.statOrder = [b!"as-given", b!"rewritten"] := by decide
+
+/-- `resolve_path_as_given_first`: an existing configured file is the one used, whatever lies
+under the home directory; the home-relative reading is only a fallback, and without either there
+is no driver at all -/
+theorem resolve_path_as_given_first (home f : Bytes) (underHome : Bool) :
+    resolvePath home f true underHome = .ok f ∧
+    resolvePath home f false true = .ok (home ++ b!"/" ++ trimPrefix f (b!"~/")) ∧
+    resolvePath home f false false = .error .fileNotFound := by
+  cases underHome <;> simp [resolvePath]
 
 end Scrapli.SshCfg.C14
